@@ -27,7 +27,7 @@ Inductive pynum :=
 | PFloat (f : float)
 | PDec (neg : bool) (coef : N) (exp : Z).     (* finite Decimal (-1)^neg * coef * 10^exp *)
 
-Inductive perr := EOverflow | EZeroDiv | EAttr | EType | EUnmodelled.
+Inductive perr := EOverflow | EZeroDiv | EAttr | EUnmodelled.
 
 (* what _get_numbers_distance returns: the int 0, a float, or an exception *)
 Inductive dres := DInt0 | DVal (f : float) | DErr (e : perr).
@@ -236,14 +236,13 @@ Definition is_dedupe_key (k : dkey) : bool :=
   | _ => false
   end.
 
-(* isinstance(key, strings) and (key.startswith('_') or key == 'deep_distance' or key == 'new_path');
-   None = TypeError (bytes.startswith(str)) *)
-Definition key_skip (k : dkey) : option bool :=
+(* isinstance(key, str) and (key.startswith('_') or key == 'deep_distance' or key == 'new_path');
+   since 3adbf05 a bytes key is an ordinary key (before: bytes.startswith(str) raised TypeError) *)
+Definition key_skip (k : dkey) : bool :=
   match k with
-  | KStr s => Some (match s with c :: _ => N.eqb c 95 | [] => false end
-                    || pystr_eqb s k_deep_distance || pystr_eqb s k_new_path)
-  | KBytes _ => None
-  | KOther => Some false
+  | KStr s => match s with c :: _ => N.eqb c 95 | [] => false end
+              || pystr_eqb s k_deep_distance || pystr_eqb s k_new_path
+  | KBytes _ | KOther => false
   end.
 
 Definition is_map (d : dv) : bool := match d with DMap _ => true | _ => false end.
@@ -258,11 +257,7 @@ Section ItemLength.
 
   Definition entry_len (k : dkey) (v : dv) : lres :=
     if is_dedupe_key k then LErr EUnmodelled else
-    match key_skip k with
-    | None => LErr EType
-    | Some true => LOk 0
-    | Some false => f v
-    end.
+    if key_skip k then LOk 0 else f v.
 
   Fixpoint idx_len (seen : list nat) (ents : list (dkey * nat * dv)) : lres :=
     match ents with
@@ -280,11 +275,7 @@ Section ItemLength.
     | [] => LOk 0
     | (p, _, inner) :: pr =>
         ladd (if is_dedupe_key p then LErr EUnmodelled else
-              match key_skip p with
-              | None => LErr EType
-              | Some true => LOk 0
-              | Some false => inner_len inner
-              end)
+              if key_skip p then LOk 0 else inner_len inner)
              (paths_len pr)
     end.
 
@@ -301,11 +292,7 @@ Section ItemLength.
     | [] => LOk 0
     | (k, _, sub) :: r =>
         ladd (if is_dedupe_key k then dedupe_len sub else
-              match key_skip k with
-              | None => LErr EType
-              | Some true => LOk 0
-              | Some false => f sub
-              end)
+              if key_skip k then LOk 0 else f sub)
              (map_len r)
     end.
 
@@ -499,14 +486,14 @@ Local Open Scope string_scope.
 Definition path_key_ok (k : pystr) : bool := is_prefix (s2p "root") k.
 Local Close Scope string_scope.
 Definition cat_key_ok (k : pystr) : bool :=
-  negb (is_dedupe_key (KStr k)) && match key_skip (KStr k) with Some false => true | _ => false end.
+  negb (is_dedupe_key (KStr k)) && negb (key_skip (KStr k)).
 Definition entry_key (e : sentry) : pystr :=
   match e with ETc k _ _ _ _ | EVc k _ _ _ | EAt _ k _ | ESet _ k _ _ => k end.
 Definition block_keys_ok (b : sblock) : bool :=
   match b with
   | BPlain cat es => cat_key_ok cat && forallb (fun e => path_key_ok (entry_key e)) es
   | BIdx _ es => forallb (fun e => path_key_ok (fst (fst e))) es
-  | BSkipped cat _ => negb (is_dedupe_key (KStr cat)) && match key_skip (KStr cat) with Some true => true | _ => false end
+  | BSkipped cat _ => negb (is_dedupe_key (KStr cat)) && key_skip (KStr cat)
   end.
 
 (* validity of a structured delta: well-formed keys, and the reported
